@@ -102,6 +102,17 @@ pub fn kout(k: usize) -> usize {
     }) as usize
 }
 
+/// name of the key style in force (a reach counter in the evidence files)
+pub fn kind_name() -> &'static str {
+    match decode(STYLE.load(Relaxed)) {
+        Kind::Identity => "identity",
+        Kind::Stride { .. } => "stride_low_bits_shared",
+        Kind::Offset { .. } => "large_offset",
+        Kind::Spread => "spread_multiplicative",
+        Kind::Descending => "descending",
+    }
+}
+
 pub fn describe() -> Option<String> {
     let keys = match decode(STYLE.load(Relaxed)) {
         Kind::Identity => None,
